@@ -29,7 +29,9 @@ Objects. A state is represented by a label (`Nat`), a position by a reference: `
 `Num.stXYZ s`) that a decoding in mode 3, 4, 5 has BOUND there (`track[k].position = STATES[k][idk]` rebinds the
 attribute; no `Coords` object is written, which is why neither `xyz` nor `stXYZ` has a writer in this file). The
 names `x`, `y`, `z` as observations read the coordinates of whatever object the position is at that moment.
-What `S` returns is only used through `len(…)` and `[i]`: `SRet` / `estimateS` at the end of the file.
+What `S` returns is only used through `len(…)` and `[i]`, and `math.log` raises outside its domain: `SRet`,
+`domainError`, `estimateS` at the end of the file (`estimate` itself is the call for list-like returns and values inside
+the domain).
 
 `mode` only selects how the observation handed to `P` is assembled and whether positions are overwritten;
 there is no decoding mode other than Viterbi. `verbose` only prints (the strings are built in every case,
